@@ -156,6 +156,35 @@ func one(r *ev.Run, env *rt.Env, p progen.Program, st *stats, verbose bool) {
 	if d != "" {
 		rep("behaviour-differs", d, d, "identical behaviour")
 	}
+	// after both have run: the original still marshals to the same bytes, and the bytes load
+	// into code that behaves the same as the first load did (a run must not leave anything
+	// behind in a code object or in state shared between loads)
+	if b1c, err := safeMarshal(c1); err != nil || !bytes.Equal(b1, b1c) {
+		rep("marshal-differs-after-run", "MarshalCode of the original gives other bytes after the code has been run: "+firstDiff(b1, b1c), "", "")
+	}
+	if c3, err := safeUnmarshal(b1); err != nil {
+		rep("unmarshal-fails", "a second UnmarshalCode of the same bytes fails: "+err.Error(), err.Error(), "code")
+	} else {
+		env.Reset()
+		o3 := env.RunCode(c3, p.Names, 5*time.Second)
+		o3.Release()
+		env.Reset()
+		o4 := env.RunCode(c2, p.Names, 5*time.Second) // the first load, run a second time on a fresh VM
+		o4.Release()
+		for _, pair := range []struct {
+			name string
+			o    rt.Outcome
+		}{{"a second load of the same bytes", o3}, {"the reloaded code run a second time", o4}} {
+			o := pair.o
+			if o.Class == "timeout" {
+				continue
+			}
+			if o.Stage != o2.Stage || o.Class != o2.Class || o.UserMsg != o2.UserMsg || (o.Stage == "ok" && o.Val != o2.Val && !strings.Contains(o2.Val, "func")) || fmt.Sprint(o.Log) != fmt.Sprint(o2.Log) {
+				dd := fmt.Sprintf("%s: %s (%s %q %q) vs first run of the reloaded code %s (%s %q %q)", pair.name, o.Stage, o.Val, o.ErrText, o.Log, o2.Stage, o2.Val, o2.ErrText, o2.Log)
+				rep("reload-not-repeatable", dd, dd, "identical behaviour")
+			}
+		}
+	}
 	if verbose {
 		fmt.Printf("  original: %s %s %q %q\n  reloaded: %s %s %q %q\n", o1.Stage, o1.Val, o1.ErrText, o1.Log, o2.Stage, o2.Val, o2.ErrText, o2.Log)
 	}
@@ -213,5 +242,5 @@ func Check(r *ev.Run, replay string) {
 	r.Set("programs_compiled", int(st.compiled))
 	r.Set("programs_rejected_by_compiler_skipped", int(st.rejected))
 	r.Set("programs_run_side_by_side", int(st.ran))
-	r.Set("rule", "every program of the shared corpus (control skeletons, operators, functions, scoping, containers/strings, errors/defer, closures to depth 3/5, every constant kind and escape): compile, MarshalCode twice (deterministic), compile again (same bytes), UnmarshalCode (never fails), MarshalCode again (same bytes), run original and reloaded code on fresh VMs (same value, error class/message, output); distinct = distinct (family, outcome) pairs")
+	r.Set("rule", "every program of the shared corpus (control skeletons, operators, functions, scoping, containers/strings, errors/defer, closures to depth 3/5, every constant kind and escape): compile, MarshalCode twice (deterministic), compile again (same bytes), UnmarshalCode (never fails), MarshalCode again (same bytes), run original and reloaded code on fresh VMs (same value, error class/message, output); afterwards the original marshals to the same bytes again, and a second load of the bytes and a second run of the first load behave like the first run; distinct = distinct (family, outcome) pairs")
 }
